@@ -695,3 +695,30 @@ def as_tuple(ctx, fi, node, e: ast.AST) -> Optional[List[ast.AST]]:
                     return None
             return out
     return None
+
+
+def call_arg(ctx, fi, call: ast.Call, pname: str, ref_pos: Optional[int] = None) -> Optional[ast.AST]:
+    """The argument expression *call* passes for parameter *pname* of the program function it calls - whether it is
+    passed by position or by keyword, and wherever the parameter sits in today's signature.  Falls back to position
+    *ref_pos* (the position in the reference tree) when the callee is not resolved."""
+    for k in call.keywords:
+        if k.arg == pname:
+            return k.value
+    try:
+        res = ctx.P.resolve_call(fi, call)
+    except Exception:
+        res = None
+    if res is not None and len(res.targets) == 1:
+        t = res.targets[0]
+        a = t.node.args
+        pos = [x.arg for x in a.posonlyargs + a.args]
+        if t.cls is not None and "staticmethod" not in t.decorators and pos and pos[0] in ("self", "cls"):
+            pos = pos[1:]
+        if pname in pos:
+            i = pos.index(pname)
+            return call.args[i] if i < len(call.args) and not any(isinstance(x, ast.Starred) for x in call.args[:i + 1]) else None
+        if pname in [x.arg for x in a.kwonlyargs]:
+            return None
+    if ref_pos is not None and ref_pos < len(call.args):
+        return call.args[ref_pos]
+    return None
